@@ -1,6 +1,6 @@
 (* C04 — lossless canonical round trip between bytes, record, text and JSON. *)
-Require Import Enr.Bytes Enr.Consts Enr.Rlp Enr.SortedMap Enr.Keccak Enr.Record Enr.Text.
-Require Import EnrProofs.Thm_Decode EnrProofs.Thm_Text.
+Require Import Enr.Bytes Enr.Consts Enr.Rlp Enr.SortedMap Enr.Keccak Enr.Record Enr.Update Enr.Text Enr.Spec Enr.Toy.
+Require Import EnrProofs.Thm_Decode EnrProofs.Thm_Text EnrProofs.Thm_Valid EnrProofs.Thm_Roundtrip.
 Open Scope N_scope.
 
 (* re-encoding the decoded record reproduces the consumed input bytes exactly *)
@@ -41,3 +41,45 @@ Theorem json_roundtrip : forall (c : crypto) kt body,
   from_json c kt ([34] ++ body ++ [34]) = Some (from_str c kt body).
 Proof. exact Thm_Text.from_json_plain. Qed.
 Print Assumptions json_roundtrip.
+
+(* every record the library returns encodes to bytes, text (with and without prefix) and JSON that decode
+   back to the SAME record (hence equal, with identical observable fields) *)
+Theorem valid_roundtrip : forall (c : crypto) kt r,
+  Valid c kt r -> rec_bytes_ok r ->
+  decode c kt (encode r) = Ok (r, []) /\
+  from_str c kt (to_text r) = Ok r /\
+  from_str c kt (b64_encode (encode r)) = Ok r /\
+  from_json c kt (to_json r) = Some (Ok r).
+Proof. exact Thm_Roundtrip.valid_roundtrip. Qed.
+Print Assumptions valid_roundtrip.
+
+(* ... which covers what decode returns ... *)
+Theorem decode_rec_bytes_ok : forall (c : crypto) kt b r rest,
+  bytes_ok b -> decode c kt b = Ok (r, rest) -> rec_bytes_ok r.
+Proof. exact Thm_Roundtrip.decode_rec_bytes_ok. Qed.
+Print Assumptions decode_rec_bytes_ok.
+
+(* ... and every record reachable through any history of builder/update calls with arbitrary arguments *)
+Theorem history_roundtrip : forall (c : crypto) kt h r,
+  Valid c kt r -> rec_bytes_ok r -> Forall (call_ok_b c kt) h ->
+  Valid c kt (run c kt r h) /\ rec_bytes_ok (run c kt r h).
+Proof. exact Thm_Roundtrip.history_roundtrip. Qed.
+Print Assumptions history_roundtrip.
+
+Theorem reachable_roundtrip : forall (c : crypto) kt h r,
+  Valid c kt r -> rec_bytes_ok r -> Forall (call_ok_b c kt) h ->
+  let r' := run c kt r h in
+  decode c kt (encode r') = Ok (r', []) /\ from_str c kt (to_text r') = Ok r' /\ from_json c kt (to_json r') = Some (Ok r').
+Proof.
+  intros c kt h r Hv Hb Hall r'. destruct (Thm_Roundtrip.history_roundtrip c kt h r Hv Hb Hall) as [Hv' Hb'].
+  destruct (Thm_Roundtrip.valid_roundtrip c kt r' Hv' Hb') as (H1 & H2 & _ & H4). auto.
+Qed.
+Print Assumptions reachable_roundtrip.
+
+(* non-vacuity: the toy record round-trips through text and JSON by computation *)
+Example toy_roundtrip :
+  match toy_built with
+  | Ok r => from_str toy_crypto Toy (to_text r) = Ok r /\ from_json toy_crypto Toy (to_json r) = Some (Ok r)
+  | _ => False
+  end.
+Proof. vm_compute. split; reflexivity. Qed.
